@@ -281,7 +281,7 @@ def run_shard(rec):
                         star_subscript_trigger(tree, cfg, host, rver) or (emitted is not None and star_subscript_trigger(emitted, cfg, host, rver))):
                     rec.known_finding("KF-host-unparse-star-subscript")
                     continue
-                if symptom == "runtime-raise:UnboundLocalError" and rver >= (3, 12):
+                if symptom in ("runtime-raise:UnboundLocalError", "runtime-raise:NameError") and rver >= (3, 12):
                     # CPython >= 3.12 miscompiles sibling inlined comprehensions (see observe.interpreter_defect_312): the
                     # shape must be in the emitted text and the pre-PEP-709 binaries must evaluate it like the original
                     try:
@@ -289,7 +289,7 @@ def run_shard(rec):
                     except (SyntaxError, ValueError, RecursionError, MemoryError):
                         shape = False
                     if shape and observe.text_is_right_on_neighbour_runtimes(rec0["src"], rec0["out"], rec0.get("pre")) is True:
-                        rec.inconc("reference-model-defect:cpython>=3.12 sibling inlined comprehensions (text is right on 3.10 and 3.11)")
+                        rec.inconc("reference-model-defect:cpython>=3.12 inlined-comprehension variable clash (text is right on 3.10 and 3.11)")
                         continue
                 rec.violation(symptom, {"name": name, "src": rec0["src"], "cfg": list(cfg), "out": rec0["out"], "runtime": rtv,
                                         "host": "%d.%d" % host, "pre": rec0.get("pre")},
